@@ -319,3 +319,14 @@ Proof.
                                   (dict_set (i_unsorted s) i obj) (i_incache s)) job).
     reflexivity.
 Qed.
+
+(* how a handle gets its state: no mutable class attribute on the result classes,
+   IMapIterator.__init__ makes fresh _items/_unsorted/_worker_pids and the initial
+   scalars per instance, the unordered iterator inherits that __init__; so a new
+   iterator starts in the model's imap_init, sharing nothing with other handles *)
+Lemma gen_imap_init_eq :
+    IM.fresh_containers_per_instance = true /\
+    IM.class_level_mutable_attrs = 0%nat /\
+    IM.unordered_inherits_init = true /\
+    forall job : Z, IM.init (PInt job) = embi imap_init job.
+Proof. repeat split. Qed.
